@@ -6,4 +6,5 @@ CONSTANTS
 INVARIANT Refines
 INVARIANT TypeOK
 INVARIANT EmitReplay
+PROPERTY Persistent
 CHECK_DEADLOCK FALSE
